@@ -22,7 +22,7 @@ RULE = ('cases = an ordered pair of segments (all 16 type pairs; arcs rotated or
         '{constructed crossing, tangential touch, end-point touch, random (disjoint or crossing, overlapping boxes), near-miss with gap '
         '1e-3..1e-9 of the size, axis-aligned straight "curves"}, or a pair of paths of 2-5 segments; every returned list is judged; '
         'distinct by the two specs; non-trivial if an oracle verdict was reached')
-RULE += '; re-query after a same-count edit of a path; axis-parallel lines through unrotated ellipses; figures 1e4..1e6 sizes away from the origin'
+RULE += '; re-query after a same-count edit of a path and after assigning path.start/path.end; axis-parallel lines through unrotated ellipses; figures 1e4..1e6 sizes away from the origin'
 ASSUMPTIONS = ['the segments\' own point() is the reference (C03/C04)',
                'for two arcs that are not both circular and unrotated an exception is tolerated (documented as not fully implemented)',
                'swap symmetry compares crossings = clusters of reported pairs whose points lie within twice the tolerance; parameters are compared '
@@ -30,11 +30,11 @@ ASSUMPTIONS = ['the segments\' own point() is the reference (C03/C04)',
 TIERS = {
     'quick': {'shards': 14, 'random': 5000, 'timeout': 900, 'min_cases': 3000, 'max_timeouts': 10,
               'require_branches': ['cfg:crossing', 'cfg:tangent', 'cfg:endpoint', 'cfg:near-miss', 'cfg:axis-aligned',
-                                   'cfg:paths', 'cfg:ellipse-axis-line', 'cfg:far-arc-line', 'cfg:hairpin', 'cfg:shallow', 'far-from-origin', 'paths:requery-after-edit', 'pair:Arc-Arc', 'pair:CubicBezier-CubicBezier', 'pair:Line-Arc',
+                                   'cfg:paths', 'cfg:ellipse-axis-line', 'cfg:far-arc-line', 'cfg:hairpin', 'cfg:shallow', 'far-from-origin', 'paths:requery-after-edit', 'paths:requery-after-endpoint-assignment', 'pair:Arc-Arc', 'pair:CubicBezier-CubicBezier', 'pair:Line-Arc',
                                    'reported>=1']},
     'thorough': {'shards': 14, 'random': 200000, 'timeout': 3400, 'min_cases': 100000, 'max_timeouts': 200,
                  'require_branches': ['cfg:crossing', 'cfg:tangent', 'cfg:endpoint', 'cfg:near-miss', 'cfg:axis-aligned',
-                                      'cfg:paths', 'cfg:ellipse-axis-line', 'cfg:far-arc-line', 'cfg:hairpin', 'cfg:shallow', 'far-from-origin', 'paths:requery-after-edit', 'pair:Arc-Arc', 'pair:CubicBezier-CubicBezier', 'pair:Line-Arc',
+                                      'cfg:paths', 'cfg:ellipse-axis-line', 'cfg:far-arc-line', 'cfg:hairpin', 'cfg:shallow', 'far-from-origin', 'paths:requery-after-edit', 'paths:requery-after-endpoint-assignment', 'pair:Arc-Arc', 'pair:CubicBezier-CubicBezier', 'pair:Line-Arc',
                                       'reported>=1']},
 }
 CASE_TIMEOUT = 20
@@ -500,6 +500,17 @@ def run_case(ctx, case):
             second = p1.intersect(p2)
             if first and second:
                 ctx.branch('paths:requery-after-edit')
+            # ... and after moving an end of either path through the Path's own start/end setters (same segment
+            # objects, same count, other length fractions); p2 is the edited operand every other time
+            q, other = (p1, p2) if len(p1) % 2 else (p2, p1)
+            if len(q) >= 2:
+                if type(q[0]).__name__ != 'Arc':
+                    q.start = q[0].start - (q[0].end - q[0].start) * 2 - (q[0].end - q[0].start) * 0.5j
+                elif type(q[-1]).__name__ != 'Arc':
+                    q.end = q[-1].end + (q[-1].end - q[-1].start) * 2 + (q[-1].end - q[-1].start) * 0.5j
+                third = p1.intersect(p2)
+                if third:
+                    ctx.branch('paths:requery-after-endpoint-assignment')
         except Exception as e:   # noqa
             if any(type(s).__name__ == 'Arc' for s in list(p1) + list(p2)):
                 ctx.note('path_intersect_with_arcs_raised')
